@@ -13,7 +13,9 @@
     (a) on the model of MatchModel.v                     -- tag 1;
     (b) on the specification: a SET of (path, client) registrations and the
         relation [compat], applied to the implementation's own observations
-        -- tags 2..6, or 11..13 inside a known-finding class. *)
+        -- tags 2..7 (no known-finding class is open for C06: the three
+        defects found while building this check are fixed in the repository;
+        their witnesses are corpus/C06/fixed_*.json). *)
 From Gnmi Require Import Base.Prelude CTree.CTreeModel Path.PathModel Match.MatchModel.
 
 Inductive op :=
@@ -233,15 +235,13 @@ Definition judge (s : sst) (once : bool) (npaths : nat) (ps : list path)
   let live := regs_of c ps (s_reg s) in
   let gone := regs_of c ps (s_gone s) in
   let n := count_of c offers in
-  let all_nil := match live with [] => false | _ :: _ => forallb r_nil live end in
   let nlive := List.length (dedup_paths (map r_path live)) in
   (* offered iff compatible *)
   (match live, n with
-   | _ :: _, O => if all_nil then [12%N]
-                  else if mem c (s_multi_removed s) then [13%N] else [2%N]
+   | _ :: _, O => [2%N]
    | [], S _ => match gone with
                 | [] => [2%N]
-                | _ :: _ => if existsb r_nonlast gone then [13%N] else [4%N]
+                | _ :: _ => [4%N]
                 end
    | _, _ => []
    end) ++
@@ -250,17 +250,11 @@ Definition judge (s : sst) (once : bool) (npaths : nat) (ps : list path)
    | [] => []
    | _ :: _ =>
        if once then
-         if (2 <=? n)%nat then
-           if Nat.eqb npaths 1 && (2 <=? nlive)%nat then [11%N] else [3%N]
-         else []
-       else if Nat.eqb n 0 || Nat.eqb n nlive then []
-            else if existsb r_nil live then [12%N]
-            else if mem c (s_multi_removed s) then [13%N] else [3%N]
+         if (2 <=? n)%nat then [3%N] else []
+       else if Nat.eqb n 0 || Nat.eqb n nlive then [] else [3%N]
    end) ++
   (* a leaf the snapshot would return is streamed *)
-  (if mem c hits && Nat.eqb n 0 then
-     if all_nil then [12%N] else [5%N]
-   else []).
+  (if mem c hits && Nat.eqb n 0 then [5%N] else []).
 
 Definition spec_nodes (s : sst) : nat :=
   List.length (dedup_paths (flat_map (fun r =>
@@ -278,17 +272,14 @@ Definition kstep (s : sst) (o : op) (r : obs) : list N :=
       let ps := map (fun p => notif_prefix pre ++ p) (notif_paths ups dels) in
       flat_map (judge s true (List.length ps) ps l hits) (all_clients s l hits)
   | ONodes, RNodes n =>
-      if Nat.eqb n (spec_nodes s)
-         || negb (match s_unspec s, s_multi_removed s with [], [] => true | _, _ => false end)
-         || existsb r_nil (s_reg s)
+      if Nat.eqb n (spec_nodes s) || negb (match s_unspec s with [] => true | _ :: _ => false end)
       then [] else [6%N]
   | _, _ => []
   end.
 
 (** ** verdicts: tag 1 model differs; 2 offered set wrong; 3 offered more
     than once; 4 offered after removal; 5 snapshot leaf not streamed; 6 trie
-    not pruned; 7 panic; 11/12/13 the same inside known-finding classes
-    C06_1 / C06_2 / C06_3. *)
+    not pruned; 7 panic. *)
 
 Fixpoint check_from (i : nat) (m : mst) (s : sst) (c : list (op * obs)) : list (nat * N) :=
   match c with
